@@ -3,11 +3,13 @@
    more at either end and accept every covering range (property C10).
      need_lo .. need_hi : the band that has to be covered (calibration range / queried frequency)
      have_lo .. have_hi : the band supplied (parameter, noise vector, calibration) *)
-Require Import QArith Lqa Bool.
+Require Import ZArith QArith Lqa Bool.
 Require Import LV.Interp.QOrd LV.Gen.RangeGen.
 Local Open Scope Q_scope.
 
-Definition miss_low (need_lo have_lo : Q) : Prop := 0 < need_lo /\ (105 # 100) * need_lo <= have_lo.
+(* the supplied band starts at least 5 % above the needed low end; a needed band that starts at 0 Hz
+   is missed by every supplied band that starts above 0 *)
+Definition miss_low (need_lo have_lo : Q) : Prop := 0 <= need_lo /\ 0 < have_lo /\ (105 # 100) * need_lo <= have_lo.
 Definition miss_high (need_hi have_hi : Q) : Prop := 0 < need_hi /\ have_hi <= (95 # 100) * need_hi.
 Definition covers (need_lo need_hi have_lo have_hi : Q) : Prop :=
   0 <= have_lo /\ have_lo <= need_lo /\ need_lo <= need_hi /\ need_hi <= have_hi.
@@ -17,7 +19,7 @@ Ltac unfold_range :=
     range_apply_reject, f_extrapolation, miss_low, miss_high, covers in *; cbv zeta.
 
 Ltac rejects := intros nl nh hl hh H; unfold_range; apply orb_true_iff;
-  destruct H as [[H0 H1]|[H0 H1]]; [left|right]; apply Qltb_true; lra.
+  destruct H as [[H0 [H1 H2]]|[H0 H1]]; [left|right]; apply Qltb_true; lra.
 Ltac accepts := intros nl nh hl hh H; unfold_range; destruct H as (H0 & H1 & H2 & H3);
   apply orb_false_iff; split; apply Qltb_false; lra.
 
@@ -47,7 +49,7 @@ Lemma range_get_value_rejects_5pct_l : forall f hl hh,
   miss_low f hl \/ miss_high f hh -> range_get_value_reject f f hl hh = true.
 Proof.
   intros f hl hh H; unfold_range; apply orb_true_iff;
-  destruct H as [[H0 H1]|[H0 H1]]; [left|right]; apply Qltb_true; lra.
+  destruct H as [[H0 [H1 H2]]|[H0 H1]]; [left|right]; apply Qltb_true; lra.
 Qed.
 Lemma range_get_value_accepts_cover_l : forall f hl hh,
   covers f f hl hh -> range_get_value_reject f f hl hh = false.
@@ -56,9 +58,36 @@ Proof.
   apply orb_false_iff; split; apply Qltb_false; lra.
 Qed.
 
+(* vnacal_new_set_m_error: the range test applies to calls with two or more points; a single value is
+   never refused for its frequency (vnacal_new(3): the vector is not used) *)
+Lemma range_m_error_single_point_l : forall nl nh hl hh, range_m_error_reject_n 1 nl nh hl hh = false.
+Proof. reflexivity. Qed.
+Lemma range_m_error_n_rejects_5pct_l : forall n nl nh hl hh, (2 <= n)%Z ->
+  miss_low nl hl \/ miss_high nh hh -> range_m_error_reject_n n nl nh hl hh = true.
+Proof.
+  intros n nl nh hl hh Hn H. unfold range_m_error_reject_n, range_m_error_applies.
+  replace (1 <? n)%Z with true by (symmetry; apply Z.ltb_lt; Lia.lia).
+  apply range_m_error_rejects_5pct_l. assumption.
+Qed.
+Lemma range_m_error_n_accepts_cover_l : forall n nl nh hl hh,
+  covers nl nh hl hh -> range_m_error_reject_n n nl nh hl hh = false.
+Proof.
+  intros n nl nh hl hh H. unfold range_m_error_reject_n. destruct (range_m_error_applies n); [|reflexivity].
+  apply range_m_error_accepts_cover_l. assumption.
+Qed.
+
+(* vnacal_get_parameter_value: a NaN frequency (None) is refused before the comparisons; on numbers the
+   decision is range_get_value_reject *)
+Lemma range_get_value_nan_refused_l : forall hl hh, range_get_value_reject_nan None hl hh = true.
+Proof. reflexivity. Qed.
+Lemma range_get_value_number_l : forall f hl hh,
+  range_get_value_reject_nan (Some f) hl hh = range_get_value_reject f f hl hh.
+Proof. reflexivity. Qed.
+
 (* the hypotheses are satisfiable (non-vacuity), and both verdicts occur *)
 Example range_examples :
-  miss_low 100 106 /\ miss_high 200 190 /\ covers 100 200 100 200 /\
+  miss_low 100 106 /\ miss_low 0 1 /\ range_new_parameter_reject 0 200 1 200 = true /\ miss_high 200 190 /\ covers 100 200 100 200 /\
+  range_m_error_reject_n 1 100 200 150 150 = false /\ range_m_error_reject_n 2 100 200 150 200 = true /\
   range_new_parameter_reject 100 200 100 190 = true /\
   range_new_parameter_reject 100 200 100 200 = false /\
   range_m_error_reject 100 200 106 200 = true /\ range_m_error_reject 100 200 99 201 = false /\
